@@ -20,6 +20,7 @@ generators on accepted boards (a pinned piece can never resolve a check) is a ge
 recorded in DESIGN.md, not mechanised."""
 from ..facts import callee_name as facts_callee
 from .names import names
+from .common import square_equals3, option_is_some_of3
 from .. import sym, lift, setalg, panics
 from . import movegen, zob
 from .movegen import (SELF, STM, NSTM, OWN, OCC, PINNED, CHECKERS, K, AND, OR, NOT, PIECE, FILE, bb, targets)
@@ -198,16 +199,33 @@ def check_is_legal(ctx, f, L):
             if chk_empty is None and F.b.get("chk_empty") is not None:
                 chk_empty = F.b["chk_empty"]
             dis = {}
+            lifted_ = [(L.lift(c_[0]), c_[1]) for c_ in p.conds]
+            back_ = ("relrank", 0, STM)
+            rank_at = None
+            for e_, v_ in lifted_:
+                if e_[0] == "bin" and e_[1] in ("Eq", "Ne") and {e_[2], e_[3]} == {back_, ("rank", TO)} and isinstance(v_, int):
+                    rank_at = (e_[1] == "Eq") == bool(v_)
             for w in ("short", "long"):
                 ws = KS["wing"][w]
+                rf_ = ("field", ("get", "castle_rights", SELF, STM), w)
+                pl_ = zob.payload(rf_)
+                if ws["at"] is None and ws["some"]:
+                    # destination == the right's rook square, possibly decided through its file and its rank
+                    ws["at"] = square_equals3(lifted_, ("sq", pl_, back_), TO)
+                if ws["some"] is None or ws["at"] is None:
+                    # `rights.W == Some(to.file())` together with `to.rank() == back rank`
+                    sf = option_is_some_of3(lifted_, rf_, ("file", TO))
+                    both = and3([sf, rank_at])
+                    if both is not None:
+                        ws["some"], ws["at"] = (True, True) if both else (ws["some"] if ws["some"] is not None else True, False)
+                        if both is False and ws["some"] is None:
+                            ws["some"] = True
                 dis[w] = and3([chk_empty, ws["some"], ws["at"] if ws["some"] else (False if ws["some"] is False else None),
                                ws["can"] if (ws["some"] and ws["at"]) else (False if (ws["some"] is False or ws["at"] is False) else None)])
             step = KS["step"]
             if step is None:
                 step_set_ = AND(("kingmoves", FROM), NOT(OWN))
-                for (s_, sq_, hv_) in F.has:
-                    if sq_ == TO and setalg.equivalent(s_, step_set_):
-                        step = hv_
+                step = setalg.membership3(step_set_, [(s_, hv_) for (s_, sq_, hv_) in F.has if sq_ == TO])
             base = and3(list(conj.values()))
             kcase = None
             if ret == sym.TRUE:
@@ -274,11 +292,17 @@ def check_is_legal(ctx, f, L):
                     rays = {"Knight": ("knight", FROM), "Bishop": ("bishoprays", FROM), "Rook": ("rookrays", FROM),
                             "Queen": OR(("rookrays", FROM), ("bishoprays", FROM))}[kind]
                     want_set = AND(tg, rays)
+                    # what the membership tests made on this path (in whatever order and grouping) say about
+                    # `to in targets & rays`
+                    facts_ = [(s, hv) for (s, sq, hv) in F.has if sq == TO]
+                    m3 = setalg.membership3(want_set, facts_)
                     if kind == "Knight":
-                        residual = ("has", want_set, TO)
+                        if m3 is None:
+                            residual = ("has", want_set, TO, facts_)
+                        else:
+                            conj["destination in targets & knight moves"] = m3
                     else:
-                        hit = [hv for (s, sq, hv) in F.has if sq == TO and setalg.equivalent(s, want_set)]
-                        conj["destination in targets & rays"] = hit[0] if hit else None
+                        conj["destination in targets & rays"] = m3
                         residual = ("isempty", AND(("between", FROM, TO), OCC))
             elif kind is None:
                 conj["piece kind"] = None
@@ -328,7 +352,10 @@ def check_is_legal(ctx, f, L):
                 # king_is_legal on this board and this move (further arguments are bound and checked in check_king_is_legal)
                 ok = ret[0] == "call" and ret[1] == residual[1] and MV in ret[2] and ret[2][0][0] == "ptr" and ret[2][0][1] == ("P", "self")
             elif residual[0] == "has":
-                ok = ret[0] == "has" and ret[2] == residual[2] and setalg.equivalent(ret[1], residual[1])
+                # the returned membership test completes the decided ones to exactly `to in wanted set`
+                ok = ret[0] == "has" and ret[2] == residual[2] and \
+                    setalg.membership3(residual[1], residual[3] + [(ret[1], True)]) is True and \
+                    setalg.membership3(residual[1], residual[3] + [(ret[1], False)]) is False
             elif residual[0] == "isempty":
                 ok = ret[0] == "isempty" and setalg.equivalent(ret[1], residual[1])
             ctx.check(ok, key + ":residual",
@@ -356,6 +383,14 @@ def king_decision(KS, N, e, v):
     if e == ("isempty", CHECKERS) and isinstance(v, int):
         KS["chk_empty"] = bool(v)
         return True
+    if e[0] == "bin" and e[1] in ("Eq", "Ne") and {e[2], e[3]} == {back, ("rank", TO)} and isinstance(v, int):
+        return True          # `to` on the mover's back rank: read together with the file comparison (square_equals3 / option_is_some_of3)
+    for w_ in ("short", "long"):
+        rf_ = ("field", rights, w_)
+        if e[0] == "bin" and e[1] in ("Eq", "Ne") and rf_ in (e[2], e[3]) and isinstance(v, int):
+            o_ = e[3] if e[2] == rf_ else e[2]
+            if o_[0] == "agg" and o_[2] == "Some":
+                return True      # `rights.W == Some(file)`: read by option_is_some_of3
     if e[0] == "has" and e[2] == TO and isinstance(v, int) and setalg.equivalent(e[1], step_set):
         KS["step"] = bool(v)
         return True
@@ -369,6 +404,14 @@ def king_decision(KS, N, e, v):
         if e[0] == "bin" and e[1] in ("Eq", "Ne") and set((e[2], e[3])) == {("sq", pl, back), TO} and isinstance(v, int):
             KS["wing"][w]["at"] = (e[1] == "Eq") == bool(v)
             return True
+        if e[0] == "call" and e[1] == N.can_castle and isinstance(v, int) and e[2][1] == ("file", TO):
+            # named through the destination's file: belongs to the wing whose destination files are asked for
+            ww = "short" if e[2][2] == ("enum", FILE, "G") else ("long" if e[2][2] == ("enum", FILE, "C") else None)
+            if ww == w:
+                KS["wing"][w]["can"] = bool(v)
+                KS["wing"][w]["args"] = (e[2][2], e[2][3])
+                KS["wing"][w]["via_to_file"] = True
+                return True
         if e[0] == "call" and e[1] == N.can_castle and isinstance(v, int) and (e[2][1] == pl or e[2][1] == ("sq", pl, back)):
             KS["wing"][w]["can"] = bool(v)
             KS["wing"][w]["args"] = (e[2][2], e[2][3])
